@@ -45,12 +45,28 @@ static void op_ae_host_verify(void) { unsigned char *sig = A_fix(0, SIG, 0), *m 
 /* ---- ECDSA adaptor */
 static int anonce_fail(unsigned char *n, const unsigned char *m, const unsigned char *k, const unsigned char *pk, const unsigned char *a, size_t al, void *d) { (void)n; (void)m; (void)k; (void)pk; (void)a; (void)al; (void)d; return 0; }
 static int anonce_zero(unsigned char *n, const unsigned char *m, const unsigned char *k, const unsigned char *pk, const unsigned char *a, size_t al, void *d) { (void)m; (void)k; (void)pk; (void)a; (void)al; (void)d; memset(n, 0, 32); return 1; }
-/* adaptor_encrypt seckey enckey msg mode ndata|- ; mode 0: NULL fp, 1: default explicit, 2: failing, 3: zero nonce */
+/* scripted nonce function: separate 32-byte answers for the main ("ECDSAadaptor/non") and the "DLEQ" nonce request; absent = default function */
+static TLS struct { int have_main, have_dleq; unsigned char main32[32], dleq32[32]; } g_ascript;
+static int anonce_script(unsigned char *n, const unsigned char *m, const unsigned char *k, const unsigned char *pk, const unsigned char *a, size_t al, void *d) {
+    int is_dleq = (al >= 4 && memcmp(a, "DLEQ", 4) == 0);
+    if (is_dleq && g_ascript.have_dleq) { memcpy(n, g_ascript.dleq32, 32); return 1; }
+    if (!is_dleq && g_ascript.have_main) { memcpy(n, g_ascript.main32, 32); return 1; }
+    return secp256k1_nonce_function_ecdsa_adaptor(n, m, k, pk, a, al, d);
+}
+/* adaptor_encrypt seckey enckey msg mode ndata|- [main32|- dleq32|-] ; mode 0: NULL fp, 1: default explicit, 2: failing, 3: zero nonce, 4: scripted */
 static void op_adaptor_encrypt(void) {
     unsigned char *sk = A_fix(0, 32, 0), *ek = A_fix(1, PK, 0), *m = A_fix(2, 32, 0); long mode = A_int(3); unsigned char *nd = A_fix(4, 32, 1), *out = O_buf(162); int r;
     secp256k1_nonce_function_hardened_ecdsa_adaptor fp = NULL;
     if (g_bad) return;
     if (mode == 1) fp = secp256k1_nonce_function_ecdsa_adaptor; else if (mode == 2) fp = anonce_fail; else if (mode == 3) fp = anonce_zero;
+    else if (mode == 4) {
+        unsigned char *mn = A_fix(5, 32, 1), *dn = A_fix(6, 32, 1);
+        if (g_bad) return;
+        g_ascript.have_main = mn != NULL; g_ascript.have_dleq = dn != NULL;
+        if (mn) memcpy(g_ascript.main32, mn, 32);
+        if (dn) memcpy(g_ascript.dleq32, dn, 32);
+        fp = anonce_script;
+    }
     CALL(r = secp256k1_ecdsa_adaptor_encrypt(ctx, out, sk, (secp256k1_pubkey *)ek, m, fp, nd)); R_int(r); R_hex(out, 162);
 }
 static void op_adaptor_verify(void) { unsigned char *a = A_fix(0, 162, 0), *pk = A_fix(1, PK, 0), *m = A_fix(2, 32, 0), *ek = A_fix(3, PK, 0); int r; if (g_bad) return; CALL(r = secp256k1_ecdsa_adaptor_verify(ctx, a, (secp256k1_pubkey *)pk, m, (secp256k1_pubkey *)ek)); R_int(r); }
